@@ -23,6 +23,13 @@ def run(ctx, names):
             if rc != 0:
                 dis.append(dict(what="extension %s: model files no longer compile" % nm, log=out[-1500:]))
                 continue
+        if hasattr(mod, "regen"):
+            # anchors / source variants / generated constants of the extension (idempotent; the host may have called it already)
+            try:
+                mod.regen(ctx)
+            except vlib.TranslateError as e:
+                dis.append(dict(what="extension %s: %s" % (nm, e), extension=nm))
+                continue
         for k in COV_KEYS:
             ctx.res.cov.pop(k, None)
         before = set(ctx.res.cov.keys())
